@@ -66,6 +66,9 @@ class _Remap:
     def check(self, cond, rule, inst, *a, **k):
         return self.R.check(cond, 'G5', '%s[%s]' % (inst, rule), *a, **k)
 
+    def form(self, cond, rule, inst, *a, **k):
+        return self.R.form(cond, 'G5', '%s[%s]' % (inst, rule), *a, **k)
+
     def used(self, *f):
         self.R.used(*f)
 
